@@ -1,7 +1,7 @@
 CONSTANTS
   Dev = {}
   Alphabet <- AlphaTok
-  MaxLen = 4
+  MaxLen = 3
   DepthProbe = {0, 1, 2, 256}
 INIT Init
 NEXT Next
